@@ -22,7 +22,7 @@ REACH_PROBES = ['verdict_PASS', 'verdict_FAIL', 'verdict_XFAIL', 'verdict_XPASS'
                 'verdict_SYNTAX_ERROR', 'verdict_FILE_ACCESS_ERROR', 'verdict_PRE_PROCESS_ERROR',
                 'verdict_VALIDATION_ERROR', 'verdict_HARD_ERROR', 'verdict_INTERNAL_ERROR', 'verdict_USAGE',
                 'mode_normal', 'mode_keep', 'mode_act', 'act_passthrough', 'fsfault_fired', 'resolver_fault_fired',
-                'preprocessor_ran', 'suite_option']
+                'preprocessor_ran', 'suite_option', 'sandbox_removal_disturbed_by_a_writing_process']
 
 CODE = {'PASS': 0, 'SKIPPED': 0, 'FAIL': 32, 'XFAIL': 33, 'XPASS': 33, 'SYNTAX_ERROR': 65, 'FILE_ACCESS_ERROR': 65,
         'PRE_PROCESS_ERROR': 65, 'VALIDATION_ERROR': 65, 'HARD_ERROR': 128, 'INTERNAL_ERROR': 129}
@@ -324,6 +324,11 @@ def build(seed, tier, ending, status, mode, g, atc_exit=None, sweep=False):
             procs['suite-cleanup'] = {'exit': 0}
             argv_extra = argv_extra + ['--suite', 'ok.suite']
             combos.append('valid_suite')
+        if g.random() < 0.3 and 'atc' in procs and not procs['atc'].get('spawn_error'):
+            # the action to check leaves a background process behind that keeps writing into act/: the sandbox can
+            # then not be removed completely - which changes nothing about the verdict
+            procs['atc'] = dict(procs['atc'], leaves_a_writing_descendant=True)
+            combos.append('atc_leaves_a_writing_descendant')
     plan = {'format': 1, 'property': PROPERTY, 'engine': 'c02', 'run_seed': seed, 'tier': tier, 'combos': combos,
             'knobs': {'mem_buff_size': g.choice([1, 7, 8192])}, 'entry': 'cli', 'status': status, 'mode': mode,
             'ending': ending, 'case': case, 'procs': procs, 'faults': faults, 'fsfaults': fsfaults, 'files': files,
@@ -400,6 +405,8 @@ def execute(plan, scratch):
             pr[k] = 1
     if 'pp' in hist['spawn_tags']:
         pr['preprocessor_ran'] = 1
+    if sim.counts.get('straggler_wrote'):
+        pr['sandbox_removal_disturbed_by_a_writing_process'] = 1
     if '--suite' in argv and eid != 'usage_nonexistent_suite':
         pr['suite_option'] = 1
     hist['probes'] = pr
@@ -526,8 +533,8 @@ def oracle(plan, hist):
         bad('table.exit_code', x['code'], code)
     if ids_elsewhere:
         bad(where + '.single_identifier_line', [], ids_elsewhere)
-    if mode != 'keep' and hist['leftover']:
-        bad('sandbox_removed', [], hist['leftover'])
+    if mode != 'keep' and hist['leftover'] and 'atc_leaves_a_writing_descendant' not in plan.get('combos', []):
+        bad('sandbox_removed', [], hist['leftover'])  # (not when a process Exactly cannot stop keeps writing into it)
     return V
 
 
